@@ -110,6 +110,29 @@ def _sampling(pq, rng, d):
     return pq.SamplingSimulator(d=d, config=pq.Config(seed_sequence=rng.randrange(10 ** 6))), ins
 
 
+def _sampling_imperfect(pq, rng, d):
+    d = 3
+    occ = rng.choice([[1, 1, 0], [2, 0, 1], [1, 1, 1]])
+    from scipy.stats import unitary_group
+    U = unitary_group.rvs(d, random_state=rng.randrange(10 ** 6))
+    eff = np.array([[1.0, 0.2, 0.1, 0.0], [0.0, 0.8, 0.3, 0.2], [0.0, 0.0, 0.6, 0.3], [0.0, 0.0, 0.0, 0.5]])
+    ins = [pq.NumberState(occ).on_modes(0, 1, 2), pq.Interferometer(U).on_modes(0, 1, 2),
+           pq.ImperfectParticleNumberMeasurement(detector_efficiency_matrix=eff).on_modes(rng.choice([0, 2])),
+           pq.Beamsplitter(theta=rng.choice([0.4, np.pi / 2])).on_modes(*rng.choice([(0, 1), (1, 0)])) if False else None]
+    ins = [x for x in ins if x is not None]
+    rest = [m for m in range(3) if m != ins[-1].modes[0]]
+    ins.append(pq.Beamsplitter(theta=rng.choice([0.4, np.pi / 2])).on_modes(*rest))
+    ins.append(pq.ParticleNumberMeasurement().on_modes(*rest))
+    return pq.PassiveSimulator(d=d, config=pq.Config(cutoff=4, seed_sequence=rng.randrange(10 ** 6))), ins
+
+
+def _gaussian_chain(pq, rng, d):
+    d = 2
+    ins = [pq.Vacuum(), pq.Squeezing(r=0.4).on_modes(0), pq.Beamsplitter(theta=np.pi / 4).on_modes(0, 1),
+           pq.HomodyneMeasurement().on_modes(0), pq.Displacement(r="0.1 * x[0]").on_modes(1), pq.HomodyneMeasurement().on_modes(1)]
+    return pq.GaussianSimulator(d=d, config=pq.Config(seed_sequence=rng.randrange(10 ** 6))), ins
+
+
 def _ffock(pq, rng, d):
     occ = [rng.choice([0, 1]) for _ in range(d)]
     ins = [pq.NumberState(occ).on_modes(*range(d))]
@@ -133,11 +156,11 @@ def _fgauss(pq, rng, d):
     return pq.fermionic.GaussianSimulator(d=d, config=pq.Config(seed_sequence=rng.randrange(10 ** 6))), ins
 
 
-FAMILIES = {"PureFock": _purefock, "Fock": _fock, "Gaussian": _gaussian, "Sampling": _sampling,
+FAMILIES = {"SamplingImperfect": _sampling_imperfect, "GaussianChain": _gaussian_chain, "PureFock": _purefock, "Fock": _fock, "Gaussian": _gaussian, "Sampling": _sampling,
             "FermionicFock": _ffock, "FermionicGaussian": _fgauss}
 
 
-def run_natural(pq, rec, seed, per_family, shots_list=(1, 2, 5, None)):
+def run_natural(pq, rec, seed, per_family, shots_list=(1, 2, 5, None, 49, 23, 7, 50)):
     """executes random programs under the recorder; exceptions are part of the behaviour (logged in the trace)"""
     rng = random.Random(seed)
     n = 0
